@@ -54,6 +54,7 @@ class Tables:
         self.trans = {}     # dim -> list of matrices
         self.gram = {}      # dim -> K x K x 3 integer array
         self.sl2 = None
+        self.eig = {}       # dim -> dict(lam, mu, mats): transformations with a repeated eigenvalue
         self.K = None
         self.whole = {}
         self.apply = {}     # (sx, st) -> record
@@ -91,9 +92,11 @@ def absorb_units(tabs, dim, r):
         tabs.trans[o["dim"]] = [np.array(t["m"], dtype=float) for t in o["trans"]]
     for o in _prefixed(r.stdout, "GRAM "):
         tabs.gram[o["dim"]] = np.array(o["gram"], dtype=float)
+    for o in _prefixed(r.stdout, "EIG "):
+        tabs.eig[o["dim"]] = dict(lam=float(o["lam"]), mu=float(o["mu"]), mats=[np.array(m, dtype=float) for m in o["mats"]])
     for o in _prefixed(r.stdout, "SL2 "):
         tabs.sl2 = [np.array(m, dtype=float) for m in o]
-    if dim not in tabs.trans or dim not in tabs.gram or tabs.sl2 is None:
+    if dim not in tabs.trans or dim not in tabs.gram or tabs.sl2 is None or dim not in tabs.eig:
         raise core.MachineryFailure("CompUnits.tla did not print its constant tables")
 
 
@@ -182,19 +185,29 @@ def data_of(tabs, cls, dim, shape, ids):
     return rows.reshape(tuple(shape) + unit_shape(tabs, cls, dim)).copy()
 
 
-def build(tabs, cls, dim, shape, ids, route="array", neg=()):
+def build(tabs, cls, dim, shape, ids, route="array", neg=(), scale=None):
     """A live object of class `cls` whose unit at flat position p is ids[p].  `neg`: 1-based flat positions of the
     units handed over with the representative -x (every row of the unit negated: the same projective unit)."""
     C = lib_class(cls)
     shape = tuple(shape)
     data = data_of(tabs, cls, dim, shape, ids)
+    if scale is not None:              # another representative of the same units (non-integer float data)
+        data = data * scale
     if neg:
         us = unit_shape(tabs, cls, dim)
         flat = data.reshape((-1,) + us)
         for p in neg:
             flat[p - 1] *= -1
         data = flat.reshape(shape + us).copy()
-    if route in ("array", "negarray") or (route == "list" and len(shape) == 0):
+    if route == "intdata":             # the payloads are integers: an integer-typed array holds them exactly
+        data = np.rint(data).astype(np.int64)
+    elif route == "fortran":           # Fortran-contiguous, as produced by np.array([t, x, y]).T
+        data = np.asfortranarray(data)
+    elif route == "strided":           # a non-contiguous view with a negative stride into a larger buffer
+        big = np.zeros(data.shape[:-1] + (2 * data.shape[-1] + 1,))
+        big[..., 1::2] = data[::-1]
+        data = big[1::2][::-1] if data.ndim == 1 else big[::-1, ..., 1::2]
+    if route in ("array", "negarray", "intdata", "fortran", "strided") or (route == "list" and len(shape) == 0):
         return C(data), [data]
     if route == "object":
         return C(C(data)), [data]
